@@ -111,3 +111,8 @@ Definition audited : list (string * string) := [
 
 Definition pair_eqb (a b : string * string) : bool := String.eqb (fst a) (fst b) && String.eqb (snd a) (snd b).
 Definition is_audited (e : string * string) : bool := existsb (pair_eqb e) audited.
+
+(** the wrapper methods of HipStr / HipOsStr / HipPath that are pure forwards to the byte string (no logic of their own) when the
+    models were written: the bytes driver's Os/Path cases and the TStr cases rely on it.  A forward that acquires logic of its own
+    disappears from the regenerated table and the inclusion below fails. *)
+Definition forward_required : list (string * string) := [("HipStr", "is_inline"); ("HipStr", "is_borrowed"); ("HipStr", "is_allocated"); ("HipStr", "len"); ("HipStr", "is_empty"); ("HipStr", "as_ptr"); ("HipStr", "as_mut_ptr"); ("HipStr", "as_mut_ptr_unchecked"); ("HipStr", "capacity"); ("HipStr", "clear"); ("HipStr", "shrink_to_fit"); ("HipStr", "shrink_to"); ("HipStr", "to_ascii_lowercase"); ("HipStr", "to_ascii_uppercase"); ("HipStr", "make_ascii_uppercase"); ("HipStr", "make_ascii_lowercase"); ("HipStr", "repeat"); ("HipOsStr", "is_inline"); ("HipOsStr", "is_borrowed"); ("HipOsStr", "is_allocated"); ("HipOsStr", "len"); ("HipOsStr", "is_empty"); ("HipOsStr", "capacity"); ("HipOsStr", "shrink_to_fit"); ("HipOsStr", "shrink_to"); ("HipPath", "is_inline"); ("HipPath", "is_borrowed"); ("HipPath", "is_allocated"); ("HipPath", "as_os_str"); ("HipPath", "capacity"); ("HipPath", "shrink_to_fit"); ("HipPath", "shrink_to")].
